@@ -473,7 +473,7 @@ example : noDunderDir exDir = true := by decide
 example : noFalsyDir exDir = true := by decide
 example : noDunderDir dunderWitness = false := by decide
 
-/-! ## 9. Known finding D33 (open): a `visible_if` condition that is itself a false value is never consulted
+/-! ## 9. Known finding D34 (open): a `visible_if` condition that is itself a false value is never consulted
 
   `hidden = md.condition and not md.condition(obj)` tests the truth value of the *callable* first.  A
   callable instance whose class defines `__bool__` / `__len__` (a callable subclass of `list` holding
